@@ -176,6 +176,7 @@ func (l *lexer) setDelimiters(leftDelim, rightDelim string) {
 	}
 	if rightDelim != "" {
 		l.rightDelim = rightDelim
+		l.trimRightDelim = rightTrimMarker + rightDelim
 	}
 }
 
